@@ -403,10 +403,11 @@ impl Gen {
             Keys | Values | Clear | ShrinkToFit | CloneSwap | EqSelf | DebugFmt | Probe | FullCheck => Op::new(code),
             IterMut | ValuesMut => Op::new(code).with_v(1 + self.rng.below(5)),
             IntoIter => Op::n(IntoIter, self.prefix(len)),
-            Drain => Op::n(Drain, self.prefix(len)).with_v(self.forget_mode()),
+            Drain => Op::n(Drain, self.prefix(len)).with_v(if len <= 64 { self.forget_mode() } else { 0 }),
             Retain => Op::new(Retain).with_list(self.pred(mon)).with_v(if self.rng.chance(1, 3) { 1 + self.rng.below(5) } else { 0 }),
             DrainFilter => {
-                let fm = self.forget_mode();
+                // (forgetting leaks what the iterator still owns: keep that bounded)
+                let fm = if len <= 64 { self.forget_mode() } else { 0 };
                 Op::n(DrainFilter, self.prefix(len))
                     .with_list(self.pred(mon))
                     .with_v(if self.rng.chance(1, 3) { 1 + self.rng.below(5) } else { 0 })
@@ -459,7 +460,7 @@ impl Gen {
         }
         match self.profile {
             Profile::Ub => 0,
-            _ => self.rng.chance(1, 5) as u64,
+            _ => self.rng.chance(1, 8) as u64,
         }
     }
 
